@@ -810,13 +810,13 @@ func ruleTxErr(c *core.Ctx, rule string, fn *ssa.Function) int {
 			}
 			var bad *core.Found
 			for _, e := range errEdges {
-				start := core.Point{B: e.B.Succs[e.Succ], I: 0}
-				fnd := (&core.Walk{EdgeOK: core.Forbid(dup), Target: func(i ssa.Instruction) bool {
+				start, env0 := core.AfterEdge(e)
+				fnd := (&core.Walk{EdgeOK: core.Forbid(dup), TargetPath: func(i ssa.Instruction, path []int) bool {
 					if r, ok := i.(*ssa.Return); ok {
 						if len(r.Results) == 0 {
 							return true
 						}
-						return !derives(r.Results[len(r.Results)-1])
+						return !derives(core.ResolveOnPath(r.Results[len(r.Results)-1], path))
 					}
 					if i != w.instr && sqlWriteOf(i) != nil {
 						return true
@@ -825,7 +825,7 @@ func ruleTxErr(c *core.Ctx, rule string, fn *ssa.Function) int {
 						return true
 					}
 					return false
-				}}).From(start, nil)
+				}}).From(start, env0)
 				if fnd != nil {
 					bad = fnd
 				}
